@@ -166,7 +166,7 @@ class Cache(Machine):
                 inputs = []
                 for j in range(k):
                     b = s.choice(blobs)
-                    uri = s.choice(["http://a/" + "u" * s.choice([1, 14, 15, 16, 240, 250]), f"#p{j}", f"cache://{j}",
+                    uri = s.choice(["http://a/" + "u" * s.choice([1, 13, 14, 15, 16, 240, 245, 246, 247, 250]), f"#p{j}", f"cache://{j}",
                                     s.choice(PAYLOAD_NAMES)]) + (str(j) if s.chance(0.85) else "")
                     # aim the slot length at interesting residues by choosing a blob size relative to eb
                     inputs.append([uri, b[0], s.choice([None, None, 0, 1, 2, eb - 1, eb, eb + 1])])
